@@ -8,21 +8,24 @@
 (* flat expansion computed by P_Flatten from the logged program.           *)
 (***************************************************************************)
 EXTENDS RegistrarP, TraceBase
-VARIABLES flat
-tvars == <<flat, l>>
-TInit == flat = <<>> /\ LInit
-TReset == IsEv("reset") /\ flat' = <<>>
+VARIABLES flat,
+          hw      \* a HandlerWrapper is installed and applies to every handler of the program
+tvars == <<flat, hw, l>>
+TInit == flat = <<>> /\ hw = FALSE /\ LInit
+TReset == IsEv("reset") /\ flat' = <<>> /\ hw' = FALSE
 TProg == /\ IsEv("prog")
          /\ LET e == Tr[l] IN
-            /\ flat' = P_Flatten(e.prog)
+            /\ flat' = P_Flatten(e.prog) /\ hw' = e.hw
             /\ Verdict(IF e.panicked = P_Panics(e.prog) THEN "ok" ELSE "bad")
 TReq == /\ IsEv("req")
         /\ LET e == Tr[l]
                R == { k \in 1..Len(flat) : flat[k].m = e.m /\ flat[k].path = e.path }
                ok == IF R = {} THEN e.status = 404 /\ e.ids = <<>>
-                     ELSE LET k == CHOOSE k \in R : TRUE IN e.ids = flat[k].hs /\ (flat[k].hs # <<>> => e.route = flat[k].path) /\ e.status # 404
+                     ELSE LET k == CHOOSE k \in R : TRUE IN /\ e.ids = flat[k].hs /\ (flat[k].hs # <<>> => e.route = flat[k].path) /\ e.status # 404
+                                                      \* like the flat registration: every handler of the chain is wrapped, once
+                                                      /\ (hw => e.nw = Len(flat[k].hs))
            IN Verdict(IF ok THEN "ok" ELSE "bad")
-        /\ UNCHANGED flat
+        /\ UNCHANGED <<flat, hw>>
 TNext == TReset \/ TProg \/ TReq
 TSpec == TInit /\ [][TNext]_tvars
 ====
